@@ -207,7 +207,10 @@ type tgenOpts struct {
 	// JSConvScalars: api.js_conv only on scalar fields (the JSON->Thrift side of the mapping has no list form)
 	JSConvScalars bool
 	// JSConvNoI16: no api.js_conv on i16 fields (the precondition of the open native finding F43)
-	JSConvNoI16   bool
+	JSConvNoI16 bool
+	// MixedCaseAnno: annotation keys are spelled with upper-case letters here and there (Api.Key, API.JS_CONV):
+	// the keys are case-insensitive
+	MixedCaseAnno bool
 	NoSet         bool
 	NoBinary      bool
 	StructMapKeys bool
@@ -450,6 +453,11 @@ func (g *tgen) newStruct(depth int) *TStruct {
 		if g.o.JSConv && f.Anno == "" && jsConvType(f.T) && !(g.o.JSConvScalars && f.T.Kind == tLIST) && !(g.o.JSConvNoI16 && f.T.Kind == tI16) && g.t.Chance(1, 4, "field.jsconv") {
 			f.JSConv = true
 			f.Anno = ` (api.js_conv = "true")`
+		}
+		if g.o.MixedCaseAnno && f.Anno != "" && g.t.Chance(1, 2, "field.anno.case") {
+			for _, k := range []string{"api.key", "api.js_conv"} {
+				f.Anno = strings.Replace(f.Anno, "("+k+" ", "("+[]string{strings.ToUpper(k), strings.Title(k), strings.ToUpper(k[:1]) + k[1:]}[g.t.Intn(3, "field.anno.case.how")]+" ", 1)
+			}
 		}
 		if g.o.QueryAnno && f.Anno == "" && (f.T.Kind == tI64 || f.T.Kind == tI32 || f.T.Kind == tBOOL || (f.T.Kind == tSTRING && !f.T.Binary)) && g.t.Chance(1, 2, "field.query") {
 			f.Query = "q_" + f.Name
